@@ -9,7 +9,7 @@ RULE = ("conventional files with comment blocks of any length before keys, trail
         "comment before, comment after, value lines) is compared with the meaning the Coq grammar assigns (expected entries: "
         "theorem C02_parse gives line/comments/values, C17_block their relation to the lines of the file); "
         "files with values of several lines in every accepted shape (quoted with text, blanks or a comment behind the closing "
-        "quote; continuation lines with trailing blanks; blank-only lines below an entry) compared with the model; the same files parsed from 8 threads at once (each thread its own files; every thread's provenance must equal the model's for the file alone); results of layered reads whose later files have or have not any entry (path and extended values through the model); econf_getPath for single files (absolute also for relative names) and \"\" for merged results; distinct by bytes")
+        "quote; continuation lines with trailing blanks; blank-only lines below an entry) compared with the model; the same files parsed from 8 threads at once (each thread its own files; every thread's provenance must equal the model's for the file alone); results of layered reads whose later files have or have not any entry (path and extended values through the model); comment blocks and trailing comments of every total length in windows around 256, 512, 1024, 4096, 8192 (thorough: 2..530 and more windows); econf_getPath for single files (absolute also for relative names) and \"\" for merged results; distinct by bytes")
 
 def gen(rng, tier):
     n = 1800 if tier == "quick" else 60000
@@ -64,6 +64,25 @@ def gen(rng, tier):
                 lines.append(k + d + b"plain" + sp())
         data = b"\n".join(lines) + rng.choice([b"\n", b"\n", b"", b"\n   \n"])
         res.append(Scenario([gens.parse_cmd(0, b"/g/m.conf", data, dl, cm), "getall 0", "dump 0"], tags=("multiline",)))
+    # comments of every total length around the sizes allocators and buffers like (256, 512, 1024, 4096, 8192): blocks of
+    # two or three comment lines before a key, trailing comments spread over the lines of a multi-line value
+    sweep = list(range(240, 272)) + list(range(500, 528)) + list(range(1016, 1032)) + list(range(4088, 4104)) + list(range(8184, 8200))
+    if tier != "quick": sweep += list(range(2, 240)) + list(range(272, 500)) + list(range(760, 780)) + list(range(2040, 2056)) + list(range(16376, 16392))
+    rng.shuffle(sweep)
+    for i in range(0, len(sweep), 6):
+        lines = []
+        for j, T in enumerate(sweep[i:i + 6]):
+            parts = 2 if rng.random() < 0.6 else 3
+            cuts = sorted(rng.sample(range(1, T - 1), parts - 1)) if T > parts + 1 else [1]
+            lens = [b - a for a, b in zip([0] + [c + 1 for c in cuts], cuts + [T])]       # lens sum + (parts-1) newlines = T
+            lens = [max(l, 0) for l in lens]
+            if rng.random() < 0.5:
+                for l in lens: lines.append(b"#" + b"c" * l)
+                lines.append(b"b%d=1" % j)
+            else:
+                lines.append(b"m%d=v0 #" % j + b"t" * lens[0])
+                for l in lens[1:]: lines.append(b"   more #" + b"t" * l)
+        res.append(Scenario([gens.parse_cmd(0, rng.choice([b"/g/s.conf", b"rel/s.conf"]), b"\n".join(lines) + b"\n", b"=", b"#"), "getall 0", "dump 0"], tags=("length-sweep",)))
     # results of layered reads: "" as path and as file of every extended value, whatever the later files contain
     for _ in range(n // 3):
         later = [rng.choice([b"", b"# only a comment\n", b"\n\n", b"[empty]\n", b"k9=drop\n", b"[A]\nk1=over\n"]) for _ in range(rng.randrange(1, 4))]
